@@ -7,6 +7,7 @@
 #define ABTD_ATOMIC_H_INCLUDED
 
 #include <stdint.h>
+#include "abtd_verif.h"
 
 typedef struct ABTD_atomic_bool {
     uint8_t val;
@@ -1348,6 +1349,7 @@ static inline void ABTD_atomic_relaxed_load_non_atomic_tagged_ptr(
 #ifdef ABT_CONFIG_HAVE_ATOMIC_BUILTIN
 #ifndef __SUNPRO_C
     *p_ptr = __atomic_load_n(&tagged_ptr->ptr, __ATOMIC_RELAXED);
+    ABTV_YIELD();
     *p_tag = __atomic_load_n(&tagged_ptr->tag, __ATOMIC_RELAXED);
 #else
     *p_ptr = __atomic_load_n((void **)&tagged_ptr->ptr, __ATOMIC_RELAXED);
@@ -1364,6 +1366,7 @@ static inline void ABTD_atomic_relaxed_store_non_atomic_tagged_ptr(
 {
 #ifdef ABT_CONFIG_HAVE_ATOMIC_BUILTIN
     __atomic_store_n(&tagged_ptr->ptr, ptr, __ATOMIC_RELAXED);
+    ABTV_YIELD();
     __atomic_store_n(&tagged_ptr->tag, tag, __ATOMIC_RELAXED);
 #else
     *(void *volatile *)&tagged_ptr->ptr = ptr;
@@ -1377,6 +1380,7 @@ static inline void ABTD_atomic_acquire_load_non_atomic_tagged_ptr(
 #ifdef ABT_CONFIG_HAVE_ATOMIC_BUILTIN
 #ifndef __SUNPRO_C
     *p_ptr = __atomic_load_n(&tagged_ptr->ptr, __ATOMIC_ACQUIRE);
+    ABTV_YIELD();
     *p_tag = __atomic_load_n(&tagged_ptr->tag, __ATOMIC_ACQUIRE);
 #else
     *p_ptr = __atomic_load_n((void **)&tagged_ptr->ptr, __ATOMIC_ACQUIRE);
@@ -1395,6 +1399,7 @@ static inline void ABTD_atomic_release_store_non_atomic_tagged_ptr(
 {
 #ifdef ABT_CONFIG_HAVE_ATOMIC_BUILTIN
     __atomic_store_n(&tagged_ptr->ptr, ptr, __ATOMIC_RELEASE);
+    ABTV_YIELD();
     __atomic_store_n(&tagged_ptr->tag, tag, __ATOMIC_RELEASE);
 #else
     __sync_synchronize();
@@ -1405,5 +1410,10 @@ static inline void ABTD_atomic_release_store_non_atomic_tagged_ptr(
 }
 
 #endif /* ABTD_ATOMIC_SUPPORT_TAGGED_PTR */
+
+#ifdef ABT_VERIF_SIM
+/* Must stay at the very end: wraps the functions defined above. */
+#include "abtd_verif_atomic.h"
+#endif
 
 #endif /* ABTD_ATOMIC_H_INCLUDED */
